@@ -137,6 +137,8 @@ class Program:
                 mi.classes[node.name] = ci
             elif isinstance(node, ast.Assign) and len(node.targets) == 1 and isinstance(node.targets[0], ast.Name):
                 mi.constants[node.targets[0].id] = node.value
+            elif isinstance(node, ast.AnnAssign) and isinstance(node.target, ast.Name) and node.value is not None:
+                mi.constants[node.target.id] = node.value          # `NAME: Type = value`
             elif isinstance(node, (ast.Import, ast.ImportFrom)):
                 self._index_import(mi, node)
 
